@@ -7,7 +7,7 @@ Engines (all enumerate their stated space completely; `seed` only picks filler e
                 every word window of a base entropy): words == reference, decode(words) == entropy (3 spellings)
   accept    E1  base sentence x every position x every one of the 2048 words x 3 spellings:
                 mnemonic_to_bytes accepts  <=>  reference accepts, decoded bytes equal
-  pairs     E1  12-word base x (position p, last position) x 2048 x 2048 double substitutions
+  pairs     E1  12-word (thorough also 24-word) base x (position p, last position) x 2048 x 2048 double substitutions
   lengths   E1  every sentence length 0..Lmax by truncation/extension x every last word: valid length and
                 checksum <=> accepted (mnemonic_to_bytes; HDPrivateKey.from_mnemonic on one sentence per length)
   accept_hd E1  HDPrivateKey.from_mnemonic over every word at chosen positions: accepted <=> reference
@@ -170,7 +170,7 @@ def run_wordlist(case):
 
 # ---------------------------------------------------------------- encode
 def encode_bases(tier):
-    return ["zero", "f0"] if tier == "quick" else ["zero", "ones", "f0", "f1", "f2", "f3"]
+    return ["f0"] if tier == "quick" else ["zero", "ones", "f0", "f1", "f2", "f3"]
 
 
 def gen_encode(tier, seed):
@@ -320,7 +320,7 @@ def gen_pairs(tier, seed):
             # quick: every 4th word at position p (512 words) x all 2048 last words
             cases.append({"n": n, "base": "f0", "p": p, "q": last, "w1lo": w1, "w1hi": w1 + (1 if tier == "quick" else 4), "seed": seed})
     if tier == "thorough":
-        for n, ps in ((20, [0]), (24, [0]), (28, [0]), (32, [0, nwords(32) - 2])):
+        for n, ps in ((32, [0, nwords(32) - 2]),):
             last = nwords(n) - 1
             for p in ps:
                 for w1 in range(0, 2048, 4):
@@ -757,7 +757,7 @@ def engines(tier, seed):
         Engine(
             "pairs", gen_pairs, run_pairs, kind="E1",
             rule="12-word base x position pair (p, last) x 2048 x 2048 double substitutions: accepted <=> reference accepts, bytes equal. quick p=0 with every 4th word (512) x all 2048 last words; "
-            "thorough every p < last, plus 15/18/21/24-word bases with p=0 and the 24-word base with p=22. Non-trivial = every pair (distinct by construction)",
+            "thorough every p < last, plus the 24-word base with p=0 and p=22. Non-trivial = every pair (distinct by construction)",
         ),
         Engine(
             "lengths", gen_lengths, run_lengths, kind="E1",
